@@ -65,4 +65,13 @@ structure ArrayWrite where
 /-- calls that write into a fixed-size array (first argument) -/
 def arrayWrites : List ArrayWrite := [⟨"econf_error.c", "econf_errString", "buffer", "snprintf", true⟩, ⟨"econftool.c", "econf_edit", "input", "strcpy", false⟩, ⟨"econftool.c", "econf_edit_editor", "path_tmpfile_edit", "snprintf", true⟩, ⟨"econftool.c", "econf_edit_editor", "tmpfile_edit", "snprintf", true⟩, ⟨"econftool.c", "econf_revert", "conf_path", "snprintf", true⟩, ⟨"econftool.c", "econf_revert", "conf_path", "snprintf", true⟩, ⟨"econftool.c", "econf_revert", "input", "strcpy", false⟩, ⟨"econftool.c", "main", "conf_basename", "snprintf", true⟩, ⟨"econftool.c", "main", "conf_dir", "snprintf", true⟩, ⟨"econftool.c", "main", "conf_dir", "snprintf", true⟩, ⟨"econftool.c", "main", "conf_dir", "snprintf", true⟩, ⟨"econftool.c", "main", "conf_filename", "snprintf", true⟩, ⟨"econftool.c", "main", "conf_filename", "snprintf", true⟩, ⟨"econftool.c", "main", "conf_path", "snprintf", true⟩, ⟨"econftool.c", "main", "conf_path", "snprintf", true⟩, ⟨"econftool.c", "main", "conf_path", "snprintf", true⟩, ⟨"econftool.c", "main", "home_dir", "snprintf", true⟩, ⟨"econftool.c", "main", "home_dir", "strcpy", false⟩, ⟨"getfilecontents.c", "read_file", "last_scanned_filename", "snprintf", true⟩, ⟨"libeconf.c", "econf_readConfigWithCallback", "etc_dir", "snprintf", true⟩, ⟨"libeconf.c", "econf_readConfigWithCallback", "etc_dir", "snprintf", true⟩, ⟨"libeconf.c", "econf_readConfigWithCallback", "etc_dir", "snprintf", true⟩, ⟨"libeconf.c", "econf_readConfigWithCallback", "etc_dir", "snprintf", true⟩, ⟨"libeconf.c", "econf_readConfigWithCallback", "run_dir", "snprintf", true⟩, ⟨"libeconf.c", "econf_readConfigWithCallback", "run_dir", "snprintf", true⟩, ⟨"libeconf.c", "econf_readConfigWithCallback", "run_dir", "snprintf", true⟩, ⟨"libeconf.c", "econf_readConfigWithCallback", "run_dir", "snprintf", true⟩, ⟨"libeconf.c", "econf_readConfigWithCallback", "usr_dir", "snprintf", true⟩, ⟨"libeconf.c", "econf_readConfigWithCallback", "usr_dir", "snprintf", true⟩, ⟨"libeconf.c", "econf_readConfigWithCallback", "usr_dir", "snprintf", true⟩, ⟨"libeconf.c", "econf_readConfigWithCallback", "usr_dir", "snprintf", true⟩]
 
+/-- string macros (`#define NAME "text"`) of lib/, as bytes -/
+def stringMacros : List (String × List UInt8) := [("CONFIG_DIRS", [0x43, 0x4f, 0x4e, 0x46, 0x49, 0x47, 0x5f, 0x44, 0x49, 0x52, 0x53, 0x3d]), ("DEFAULT_ETC_SUBDIR", [0x2f, 0x65, 0x74, 0x63]), ("DEFAULT_RUN_SUBDIR", [0x2f, 0x72, 0x75, 0x6e]), ("KEY_FILE_NULL_VALUE", [0x5f, 0x6e, 0x6f, 0x6e, 0x65, 0x5f]), ("PARSING_DIRS", [0x50, 0x41, 0x52, 0x53, 0x49, 0x4e, 0x47, 0x5f, 0x44, 0x49, 0x52, 0x53, 0x3d]), ("ROOT_PREFIX", [0x52, 0x4f, 0x4f, 0x54, 0x5f, 0x50, 0x52, 0x45, 0x46, 0x49, 0x58, 0x3d])]
+
+/-- error constants referenced per function (file, function, constants) -/
+def errRefs : List (String × String × List String) := [("get_value_def.c", "econf_getBoolValueDef", ["ECONF_ERROR", "ECONF_NOKEY"]), ("get_value_def.c", "econf_getDoubleValueDef", ["ECONF_ERROR", "ECONF_NOKEY"]), ("get_value_def.c", "econf_getFloatValueDef", ["ECONF_ERROR", "ECONF_NOKEY"]), ("get_value_def.c", "econf_getInt64ValueDef", ["ECONF_ERROR", "ECONF_NOKEY"]), ("get_value_def.c", "econf_getIntValueDef", ["ECONF_ERROR", "ECONF_NOKEY"]), ("get_value_def.c", "econf_getStringValueDef", ["ECONF_ERROR", "ECONF_NOKEY"]), ("get_value_def.c", "econf_getUInt64ValueDef", ["ECONF_ERROR", "ECONF_NOKEY"]), ("get_value_def.c", "econf_getUIntValueDef", ["ECONF_ERROR", "ECONF_NOKEY"]), ("getfilecontents.c", "join_same_entries", ["ECONF_NOMEM", "ECONF_SUCCESS"]), ("getfilecontents.c", "read_file", ["ECONF_EMPTY_SECTION_NAME", "ECONF_MISSING_BRACKET", "ECONF_MISSING_DELIMITER", "ECONF_NOFILE", "ECONF_NOMEM", "ECONF_SUCCESS", "ECONF_TEXT_AFTER_SECTION"]), ("getfilecontents.c", "read_file_with_callback", ["ECONF_ERROR", "ECONF_ERROR_FILE_IS_SYM_LINK", "ECONF_NOFILE", "ECONF_PARSING_CALLBACK_FAILED", "ECONF_SUCCESS", "ECONF_WRONG_DIR_PERMISSION", "ECONF_WRONG_FILE_PERMISSION", "ECONF_WRONG_GROUP", "ECONF_WRONG_OWNER"]), ("getfilecontents.c", "store", ["ECONF_MISSING_DELIMITER", "ECONF_NOMEM", "ECONF_SUCCESS"]), ("helpers.c", "find_key", ["ECONF_ERROR", "ECONF_NOKEY", "ECONF_NOMEM", "ECONF_SUCCESS"]), ("helpers.c", "get_absolute_path", ["ECONF_NOFILE", "ECONF_NOMEM"]), ("helpers.c", "new_key", ["ECONF_ERROR", "ECONF_NOMEM"]), ("helpers.c", "setKeyValue", ["ECONF_NOKEY"]), ("keyfile.c", "getBoolValueNum", ["ECONF_KEY_HAS_NULL_VALUE", "ECONF_NOMEM", "ECONF_PARSE_ERROR", "ECONF_SUCCESS"]), ("keyfile.c", "getCommentsNum", ["ECONF_SUCCESS"]), ("keyfile.c", "getDoubleValueNum", ["ECONF_KEY_HAS_NULL_VALUE", "ECONF_SUCCESS", "ECONF_VALUE_CONVERSION_ERROR"]), ("keyfile.c", "getFloatValueNum", ["ECONF_KEY_HAS_NULL_VALUE", "ECONF_SUCCESS", "ECONF_VALUE_CONVERSION_ERROR"]), ("keyfile.c", "getInt64ValueNum", ["ECONF_KEY_HAS_NULL_VALUE", "ECONF_SUCCESS", "ECONF_VALUE_CONVERSION_ERROR"]), ("keyfile.c", "getIntValueNum", ["ECONF_KEY_HAS_NULL_VALUE", "ECONF_SUCCESS", "ECONF_VALUE_CONVERSION_ERROR"]), ("keyfile.c", "getLineNrNum", ["ECONF_SUCCESS"]), ("keyfile.c", "getPath", ["ECONF_SUCCESS"]), ("keyfile.c", "getStringValueNum", ["ECONF_NOMEM", "ECONF_SUCCESS"]), ("keyfile.c", "getUInt64ValueNum", ["ECONF_KEY_HAS_NULL_VALUE", "ECONF_SUCCESS", "ECONF_VALUE_CONVERSION_ERROR"]), ("keyfile.c", "getUIntValueNum", ["ECONF_KEY_HAS_NULL_VALUE", "ECONF_SUCCESS", "ECONF_VALUE_CONVERSION_ERROR"]), ("keyfile.c", "key_file_append", ["ECONF_ERROR", "ECONF_NOMEM", "ECONF_SUCCESS"]), ("keyfile.c", "setBoolValueNum", ["ECONF_NOMEM", "ECONF_SUCCESS", "ECONF_WRONG_BOOLEAN_VALUE"]), ("keyfile.c", "setDoubleValueNum", ["ECONF_NOMEM", "ECONF_SUCCESS"]), ("keyfile.c", "setFloatValueNum", ["ECONF_NOMEM", "ECONF_SUCCESS"]), ("keyfile.c", "setGroup", ["ECONF_ERROR", "ECONF_NOMEM", "ECONF_SUCCESS"]), ("keyfile.c", "setInt64ValueNum", ["ECONF_NOMEM", "ECONF_SUCCESS"]), ("keyfile.c", "setIntValueNum", ["ECONF_NOMEM", "ECONF_SUCCESS"]), ("keyfile.c", "setKey", ["ECONF_ERROR", "ECONF_NOMEM", "ECONF_SUCCESS"]), ("keyfile.c", "setStringValueNum", ["ECONF_NOMEM", "ECONF_SUCCESS"]), ("keyfile.c", "setUInt64ValueNum", ["ECONF_NOMEM", "ECONF_SUCCESS"]), ("keyfile.c", "setUIntValueNum", ["ECONF_NOMEM", "ECONF_SUCCESS"]), ("libeconf.c", "econf_getBoolValue", ["ECONF_ARGUMENT_IS_NULL_VALUE", "ECONF_ERROR"]), ("libeconf.c", "econf_getDoubleValue", ["ECONF_ARGUMENT_IS_NULL_VALUE", "ECONF_ERROR"]), ("libeconf.c", "econf_getFloatValue", ["ECONF_ARGUMENT_IS_NULL_VALUE", "ECONF_ERROR"]), ("libeconf.c", "econf_getGroups", ["ECONF_ERROR", "ECONF_NOGROUP", "ECONF_NOMEM", "ECONF_SUCCESS"]), ("libeconf.c", "econf_getInt64Value", ["ECONF_ARGUMENT_IS_NULL_VALUE", "ECONF_ERROR"]), ("libeconf.c", "econf_getIntValue", ["ECONF_ARGUMENT_IS_NULL_VALUE", "ECONF_ERROR"]), ("libeconf.c", "econf_getKeys", ["ECONF_ERROR", "ECONF_NOKEY", "ECONF_NOMEM", "ECONF_SUCCESS"]), ("libeconf.c", "econf_getStringValue", ["ECONF_ARGUMENT_IS_NULL_VALUE", "ECONF_ERROR"]), ("libeconf.c", "econf_getUInt64Value", ["ECONF_ARGUMENT_IS_NULL_VALUE", "ECONF_ERROR"]), ("libeconf.c", "econf_getUIntValue", ["ECONF_ARGUMENT_IS_NULL_VALUE", "ECONF_ERROR"]), ("libeconf.c", "econf_mergeFiles", ["ECONF_ERROR", "ECONF_NOMEM", "ECONF_SUCCESS"]), ("libeconf.c", "econf_newKeyFile", ["ECONF_NOMEM", "ECONF_SUCCESS"]), ("libeconf.c", "econf_newKeyFile_with_options", ["ECONF_NOMEM", "ECONF_OPTION_NOT_FOUND", "ECONF_SUCCESS"]), ("libeconf.c", "econf_readConfigWithCallback", ["ECONF_SUCCESS"]), ("libeconf.c", "econf_readDirs", ["ECONF_SUCCESS"]), ("libeconf.c", "econf_readDirsWithCallback", ["ECONF_SUCCESS"]), ("libeconf.c", "econf_readFileWithCallback", ["ECONF_SUCCESS"]), ("libeconf.c", "econf_setBoolValue", ["ECONF_EMPTYKEY", "ECONF_FILE_LIST_IS_NULL"]), ("libeconf.c", "econf_setDoubleValue", ["ECONF_EMPTYKEY", "ECONF_FILE_LIST_IS_NULL"]), ("libeconf.c", "econf_setFloatValue", ["ECONF_EMPTYKEY", "ECONF_FILE_LIST_IS_NULL"]), ("libeconf.c", "econf_setInt64Value", ["ECONF_EMPTYKEY", "ECONF_FILE_LIST_IS_NULL"]), ("libeconf.c", "econf_setIntValue", ["ECONF_EMPTYKEY", "ECONF_FILE_LIST_IS_NULL"]), ("libeconf.c", "econf_setStringValue", ["ECONF_EMPTYKEY", "ECONF_FILE_LIST_IS_NULL"]), ("libeconf.c", "econf_setUInt64Value", ["ECONF_EMPTYKEY", "ECONF_FILE_LIST_IS_NULL"]), ("libeconf.c", "econf_setUIntValue", ["ECONF_EMPTYKEY", "ECONF_FILE_LIST_IS_NULL"]), ("libeconf.c", "econf_set_conf_dirs", ["ECONF_NOMEM", "ECONF_SUCCESS"]), ("libeconf.c", "econf_writeFile", ["ECONF_ERROR", "ECONF_NOFILE", "ECONF_NOMEM", "ECONF_SUCCESS", "ECONF_WRITEERROR"]), ("libeconf_ext.c", "econf_getExtValue", ["ECONF_ERROR", "ECONF_NOMEM", "ECONF_SUCCESS"]), ("mergefiles.c", "check_conf_dir", ["ECONF_SUCCESS"]), ("mergefiles.c", "merge_econf_files", ["ECONF_ERROR", "ECONF_SUCCESS"]), ("mergefiles.c", "traverse_conf_dirs", ["ECONF_NOFILE", "ECONF_NOMEM", "ECONF_SUCCESS"]), ("readconfig.c", "readConfigHistoryWithCallback", ["ECONF_ARGUMENT_IS_NULL_VALUE", "ECONF_ERROR", "ECONF_NOFILE", "ECONF_NOMEM", "ECONF_SUCCESS"]), ("readconfig.c", "readConfigWithCallback", ["ECONF_ARGUMENT_IS_NULL_VALUE", "ECONF_SUCCESS"])]
+
+/-- string literals compared with strcmp/strncmp per function, as bytes -/
+def cmpStrings : List (String × String × List (List UInt8)) := [("getfilecontents.c", "read_file", [[0x0a]]), ("keyfile.c", "getBoolValueNum", [[0x30], [0x31], [0x5f, 0x6e, 0x6f, 0x6e, 0x65, 0x5f], [0x66, 0x61, 0x6c, 0x73, 0x65], [0x6e, 0x6f], [0x74, 0x72, 0x75, 0x65], [0x79, 0x65, 0x73]]), ("keyfile.c", "setBoolValueNum", [[0x30], [0x31], [0x5f, 0x6e, 0x6f, 0x6e, 0x65, 0x5f], [0x66, 0x61, 0x6c, 0x73, 0x65], [0x6e, 0x6f], [0x74, 0x72, 0x75, 0x65], [0x79, 0x65, 0x73]]), ("libeconf.c", "econf_getGroups", [[0x5f, 0x6e, 0x6f, 0x6e, 0x65, 0x5f]]), ("libeconf.c", "econf_newKeyFile_with_options", [[0x43, 0x4f, 0x4e, 0x46, 0x49, 0x47, 0x5f, 0x44, 0x49, 0x52, 0x53, 0x3d], [0x4a, 0x4f, 0x49, 0x4e, 0x5f, 0x53, 0x41, 0x4d, 0x45, 0x5f, 0x45, 0x4e, 0x54, 0x52, 0x49, 0x45, 0x53, 0x3d, 0x31], [0x50, 0x41, 0x52, 0x53, 0x49, 0x4e, 0x47, 0x5f, 0x44, 0x49, 0x52, 0x53, 0x3d], [0x50, 0x59, 0x54, 0x48, 0x4f, 0x4e, 0x5f, 0x53, 0x54, 0x59, 0x4c, 0x45, 0x3d, 0x31], [0x52, 0x4f, 0x4f, 0x54, 0x5f, 0x50, 0x52, 0x45, 0x46, 0x49, 0x58, 0x3d]]), ("libeconf.c", "econf_writeFile", [[0x5f, 0x6e, 0x6f, 0x6e, 0x65, 0x5f]]), ("mergefiles.c", "add_new_groups", [[0x5f, 0x6e, 0x6f, 0x6e, 0x65, 0x5f]]), ("mergefiles.c", "insert_nogroup", [[0x5f, 0x6e, 0x6f, 0x6e, 0x65, 0x5f]]), ("mergefiles.c", "merge_econf_files", [[0x2e], [0x2e, 0x2e]])]
+
 end Generated
